@@ -249,3 +249,13 @@ H("cidq_next_step", ["C03", "C09"], "quick", "cid_queue::next_step",
   "one step from every ring state satisfying the invariant")
 H("cidq_new_is_valid", ["C03", "C09"], "quick", "cid_queue::new_is_valid", [("t0", "u8"), ("t1", "u8")], 22,
   ["reached"], ["CidQueue::new", "CidQueue::update_initial_cid", "CidQueue::next"], "base case of the induction")
+
+# ------------------------------------------------------------------ constant_time.rs / token.rs (C04, C14)
+H("constant_time_eq", ["C04", "C14"], "quick", "constant_time::eq_is_equality",
+  [("a", "[u8; 16]"), ("b", "[u8; 16]"), ("la", "usize"), ("lb", "usize")], 18,
+  ["equal", "different"], ["constant_time::eq", "constant_time_ne", "ResetToken::eq"], "every pair of byte strings of length 0..=16")
+H("path_amplification_allowance", ["C07"], "quick", "connection::paths::amplification_allowance",
+  [("total_sent", "u64"), ("total_recvd", "u64"), ("segment_size", "u16"), ("k", "u8")], 6,
+  ["gate passes", "gate blocks"], ["PathData::anti_amplification_blocked"],
+  "every counter < 2^62, every segment size: u16, batches of up to 10 datagrams",
+  assumes=["the gate argument `segment_size * num_datagrams + 1` is copied from the call site in Connection::poll_transmit (the call site itself is not encoded)"])
